@@ -82,10 +82,17 @@ func drawC12(t *rapid.T) C12Case {
 		return C12Case{GCase: DrawFamily(t, "nullable")}
 	case 2:
 		gc := DrawFamily(t, "productive")
+		if rapid.Bool().Draw(t, "decls") {
+			// tags, explicit numbers, %type lines on tokens and nonterminals, precedence lines
+			if rapid.Bool().Draw(t, "prec") {
+				spec.WithPrec(t, gc.Spec)
+			}
+			spec.WithDecls(t, gc.Spec)
+		}
 		if rapid.Bool().Draw(t, "names") {
 			spec.WithNames(t, gc.Spec)
-			gc.Text = gc.Spec.Render(spec.RenderOpts{})
 		}
+		gc.Text = gc.Spec.Render(spec.RenderOpts{})
 		return C12Case{GCase: gc}
 	default:
 		var s *spec.Spec
